@@ -25,7 +25,9 @@ VARIABLES l,      \* next line to consume
                   \* so what S read is a value between szS and the current
                   \* size (R only shrinks the queue)
 
-tvars == <<vars, l, dead, held, szS>>
+VARIABLE strict   \* the run is a "silent peer" scenario (reset line)
+
+tvars == <<vars, l, dead, held, szS, strict>>
 
 Ev == Trace[l]
 Is(name) == l <= Len(Trace) /\ Trace[l].ev = name
@@ -40,10 +42,11 @@ Pkt(r) == IF r.k = "DATA" THEN Data(r.seq, r.m)
 TraceInit == /\ Init /\ l = 1 /\ dead = [e \in EP |-> FALSE]
              /\ held = [e \in EP |-> <<>>]
              /\ szS = [e \in EP |-> 0]
+             /\ strict = FALSE
 
-Keep == UNCHANGED <<dead, held, szS>>
+Keep == UNCHANGED <<dead, held, szS, strict>>
 \* an event of the send loop: remember the size it leaves behind
-KeepS == /\ UNCHANGED <<dead, held>>
+KeepS == /\ UNCHANGED <<dead, held, strict>>
          /\ LET e == E IN
             szS' = [szS EXCEPT ![e] = QSize(base'[e], top'[e], S)]
 
@@ -66,6 +69,7 @@ TReset ==
     /\ dead' = [e \in EP |-> FALSE]
     /\ held' = [e \in EP |-> <<>>]
     /\ szS' = [e \in EP |-> 0]
+    /\ strict' = (Ev.strict = 1)
 
 Stutter == UNCHANGED vars
 
@@ -105,7 +109,7 @@ TTxOther ==
     /\ dead' = IF Ev.k = "FIN" THEN [dead EXCEPT ![E] = TRUE] ELSE dead
     /\ UNCHANGED <<base, top, buf, rseq, lastNack, spc, ping, rsNext, rsTop,
                    rsRet, rcur, szR, inbox, nAcc, nPing, dlv, drops, dups, nRs,
-                   uTop, uBase, uR, held, szS>>
+                   uTop, uBase, uR, held, szS, strict>>
 
 \* The transport handed the head of the channel to a recvFromStream caller.
 \* That is normally the receive loop, which reports it next ("rx"), but a
@@ -116,7 +120,7 @@ TDeq == /\ Is("deq") /\ Adv
         /\ held' = [held EXCEPT ![E] = Append(@, Pkt(Ev))]
         /\ UNCHANGED <<base, top, buf, rseq, lastNack, spc, ping, rsNext,
                        rsTop, rsRet, rcur, szR, inbox, nAcc, nPing, dlv,
-                       drops, dups, nRs, uTop, uBase, uR, dead, szS>>
+                       drops, dups, nRs, uTop, uBase, uR, dead, szS, strict>>
 
 RemoveAt(q, i) == [j \in 1..(Len(q) - 1) |-> IF j < i THEN q[j] ELSE q[j + 1]]
 
@@ -125,7 +129,7 @@ Matches(p, r) == p.k = r.k /\ (r.k \in {"DATA", "ACK", "NACK"} => p.seq = r.seq)
 \* The receive loop reports the packet it is about to process (hook after
 \* Deserialize): GBN!Rx with the packet taken from held.  The loop can be one
 \* payload ahead of the application's own report of its last Recv.
-TRx == /\ Is("rx") /\ Adv /\ UNCHANGED <<dead, szS>>
+TRx == /\ Is("rx") /\ Adv /\ UNCHANGED <<dead, szS, strict>>
        /\ LET I == {i \in 1..Len(held[E]) : Matches(held[E][i], Ev)} IN
           /\ I # {}
           /\ LET i == CHOOSE x \in I : \A y \in I : x <= y
@@ -192,11 +196,25 @@ TRecvRet == /\ Is("recvRet") /\ Adv /\ Keep
                ELSE Stutter
 
 \* events that carry no data-phase state change
-TInfo == /\ \/ Is("sendCall") \/ Is("sendRet") \/ Is("closeQuit")
+\* C09: a Send call returned.  In a silent-peer scenario the first N calls
+\* must have returned without waiting.
+TSendRet == /\ Is("sendRet") /\ Adv /\ Keep /\ Stutter
+            /\ (strict /\ Ev.err = "" /\ Ev.m <= N) => Ev.w = 0
+
+\* C09: at an instant where every goroutine is blocked, the application has
+\* had exactly the added packets accepted, and a Send call is blocked only if
+\* the window is full (or the send loop is in a resend/sync wait).
+TProbe == /\ Is("probe") /\ Adv /\ Keep /\ Stutter
+          /\ Ev.returned = nAcc[E]
+          /\ Ev.blocked = 1 =>
+                \/ spc[E] = "full" /\ Size(E) >= N
+                \/ spc[E] \in {"rs", "sync"}
+
+TInfo == /\ \/ Is("sendCall") \/ Is("closeQuit")
             \/ Is("closeDone") \/ Is("fin") \/ Is("pongTimeout")
             \/ Is("note") \/ Is("new") \/ Is("setN") \/ Is("hsDone")
             \/ Is("closeCall") \/ Is("closeRet")
-         /\ Adv /\ Stutter /\ UNCHANGED <<held, szS>>
+         /\ Adv /\ Stutter /\ UNCHANGED <<held, szS, strict>>
          /\ dead' = IF Ev.ev \in {"closeQuit", "fin", "pongTimeout"}
                     THEN [dead EXCEPT ![E] = TRUE] ELSE dead
 
@@ -210,7 +228,7 @@ TraceNext ==
     \/ TReset \/ TPing \/ TAdd \/ TTxData \/ TTxAck \/ TTxNack \/ TTxOther
     \/ TDeq \/ TRx \/ TRSeq \/ TNackSupp \/ TAck \/ TAckEmpty \/ TNack
     \/ TFull \/ TWake \/ TResend \/ TResendSkip \/ TSyncWait \/ TSyncDone
-    \/ TRecvRet \/ TInfo \/ TEnd
+    \/ TRecvRet \/ TSendRet \/ TProbe \/ TInfo \/ TEnd
 
 TraceSpec == TraceInit /\ [][TraceNext]_tvars
 
